@@ -1175,7 +1175,7 @@ PROPS["C11"] = Prop(
 F_FAULT = Family("fault", "Run.RunFault", "run_fault", "holds_fault", lambda a, o: a[6] > 0)
 F_FAULT.shard_cases = 60
 OP_OBJECTS = {0: (1, 7, 8), 1: (1, 7, 8), 9: (1, 7, 8), 2: (1, 7), 3: (1, 4), 4: (1, 4), 5: (2, 6, 4), 6: (2, 6, 4), 7: (2, 6, 4), 8: (2, 6, 4),
-              10: (3, 5, 7), 11: (3, 5, 7), 12: (6, 7), 13: (6, 7), 14: (6, 2)}
+              10: (3, 5, 7), 11: (3, 5, 7), 12: (6, 7), 13: (6, 7), 14: (6, 2), 15: (6, 2), 16: (6,), 17: (6,)}
 
 
 def gen_c10(tier, rng):
@@ -1186,7 +1186,7 @@ def gen_c10(tier, rng):
         for bs in (0, 1, 2):
             sd = seed(rng)
             for op, objs in OP_OBJECTS.items():
-                needs_q = op in (5, 6, 7, 8, 10, 11, 14)
+                needs_q = op in (5, 6, 7, 8, 10, 11, 14, 15, 16, 17)
                 qs = pick_queries(n, rng, 1, (2 if tier == 'quick' else 6)) if needs_q else [[]]
                 if needs_q:
                     qs = [q for q in qs if q] or [[0]]
@@ -1207,7 +1207,7 @@ def gen_c10(tier, rng):
 PROPS["C10"] = Prop(
     [F_FAULT, F_SCHED], gen_c10,
     "fault: operations {sync / fsm outboard creation into an outboard (+sync), sync / fsm outboard_post_order, sync / fsm validating and non-validating "
-    "encoders, sync / fsm decode_ranges, sync / fsm copy, sync valid_ranges} x every io object involved (sequential data reader, positioned data reader, "
+    "encoders, sync / fsm decode_ranges, sync / fsm copy, sync / fsm valid_ranges and valid_outboard_ranges} x every io object involved (sequential data reader, positioned data reader, "
     "stream reader, stream writer, target, outboard load / save / sync) x failing call index k (every k up to the fault-free count in thorough; first, "
     "last and random in quick) x kinds {Other, UnexpectedEof, ConnectionReset, WriteZero}; observation = result + the full call log of the wrappers. "
     "sched: the k-th read of a fragmenting stream reader fails. non-trivial = a fault is injected",
